@@ -19,6 +19,12 @@ STRUCTS = ["Inner", "Nested", "OptS", "OptP", "TailS", "NilS", "NilX", "PtrS", "
 # structs with rlp:"-" / unexported fields before, between and after optional / tail / nil-tagged fields, an embedded struct and
 # a pointer to a struct with optional fields inside, structs whose only codec field is optional
 IGNORED = ["IgA", "IgB", "IgT", "IgN", "OptIn", "IgE", "OnlyOpt", "IgOnly"]
+# nil / non-nil pointers to every kind (bool, uint8..64, big.Int, string, [N]byte, []byte, struct, list) as plain, rlp:"nil", "nilString",
+# "nilList" and "optional" fields and at top level; the specification (RLPTyped!NilKind) says which empty value (80 / C0) a nil one is
+PTR_SMALL = ["pbool", "pu16", "pstr", "pInner", "PtrB"]
+PTR_BIG = ["PtrPlain", "PtrNil", "PtrNilS", "PtrNilL", "PtrOpt"]
+# slices of multi-byte elements (typed model, and MC_RLPLists: a list header never sizes an allocation)
+SLICES = ["SU64", "SArr32", "SPtr", "SBig"]
 CHAIN = ["tx", "log", "receipt", "sreceipt", "blockinfo", "account", "slim", "header"]
 
 
@@ -135,7 +141,9 @@ def run(c):
               "position, also stacked, (d) headers claiming up to 2^64-1, (e) TLC-chosen boundary values of a fixed schema set incl. the wire "
               "structs of Transaction/Receipt/ReceiptForStorage/BlockInfo/Log/StateAccount/Header and 8 structs with rlp:\"-\" / unexported fields "
               "before, between and after optional / tail / nil-tagged fields (ignored field's zero-ness opposite to its neighbours'; encoded, "
-              "decoded into fresh and into prepopulated values) with their encodings and mutations, "
+              "decoded into fresh and into prepopulated values), nil / non-nil pointers to every kind in plain / nil / nilString / nilList / optional "
+              "positions, with their encodings and mutations, (d') list headers declaring 4 KB..1 MB decoded into slices of multi-byte elements "
+              "with and without an input limit, allocation measured against the bound stated in RLPStream.tla, "
               "(f) every sequence of <= %d Stream calls on about %d inputs x 3 limits x NewStream/NewListStream; each printed transition "
               "carries the specified outcome of every entry point and is executed on the real lib/rlp + types: EncodeToBytes/Encode/"
               "EncodeToReader/EncoderBuffer = Enc, DecodeBytes/Decode/Stream.Decode into interface{}, RawValue and %d Go types, Split*/"
@@ -145,9 +153,9 @@ def run(c):
               "strings go through the real decoders and TLC must explain every recorded outcome (trace validation). evaluations = real calls "
               "compared; distinct non-trivial = distinct byte strings / values / call histories other than a plain rejection of the first "
               "byte's type"
-              % (4 if th else 3, 10 if th else 6, 47 if th else 28, len(SCALARS) + len(STRUCTS) + len(IGNORED) + len(CHAIN), 20000 if th else 2000))
+              % (4 if th else 3, 10 if th else 6, 47 if th else 28, len(SCALARS) + len(STRUCTS) + len(IGNORED) + len(PTR_SMALL) + len(PTR_BIG) + len(SLICES) + len(CHAIN), 20000 if th else 2000))
     c.assumptions = [
-        "the input limit is set (DecodeBytes, bytes.Reader, explicit limit): rlp.Decode / NewStream(r, 0) over a plain reader allocate what a header claims (documented upstream; tx_journal.go and snapshot/journal.go use that mode on local files) - not covered",
+        "the input limit is set (DecodeBytes, bytes.Reader, explicit limit): without one (rlp.Decode / NewStream(r, 0) over a plain reader) a STRING header makes Bytes/Raw/BigInt allocate what it claims (documented upstream; tx_journal.go and snapshot/journal.go use that mode on local files) - only LIST headers are covered in that mode (MC_RLPLists)",
         "byte strings shorter than 2^24 bytes; declared sizes up to 2^64-1 are compared as digit strings, never as TLC integers",
         "'identical to the reference implementation' = identical to RLP.tla's Enc (Yellow Paper, Appendix B)",
         "equality of Go values is taken modulo the documented identifications: nil slice = empty slice, untagged nil pointer = pointer to the zero value (NilIsZero), 'nil'-tagged pointer to an empty-encoding value = nil (EmptyIsNil)",
@@ -167,7 +175,7 @@ def run(c):
 
     # (a) byte strings over the boundary alphabet
     run_model(c, "strings", "MC_RLPStrings",
-              {"Alphabet": tset(ALPHA + extra), "Names": sset(SCALARS + STRUCTS + IGNORED + (["tx", "log", "account", "slim"] if th else []))},
+              {"Alphabet": tset(ALPHA + extra), "Names": sset(SCALARS + STRUCTS + IGNORED + PTR_SMALL + ["SU64", "SBig", "SPtr"] + (["tx", "log", "account", "slim"] if th else []))},
               {"N": 4 if th else 3}, ["Inv", "TInv"], "TestStrings")
 
     # (b)+(c) trees and mutations
@@ -209,7 +217,8 @@ def run(c):
         mut_all = ["u64", "big", "bool", "bytes", "arr1", "arr2", "Inner", "OptS", "NilX"]
         mut_base = ["Nested", "OptP", "TailS", "NilS", "PtrS", "Rows", "ArrU", "tx", "account", "log"]
     run_model(c, "typed", "MC_RLPTyped",
-              {"Names": sset(SCALARS + STRUCTS + IGNORED + CHAIN), "MutBase": sset(mut_base), "MutAll": sset(mut_all + IGNORED)},
+              {"Names": sset(SCALARS + STRUCTS + IGNORED + PTR_SMALL + PTR_BIG + SLICES + CHAIN),
+               "MutBase": sset(mut_base + PTR_BIG + ["SArr32", "SPtr"]), "MutAll": sset(mut_all + IGNORED + PTR_SMALL + ["SU64", "SBig"])},
               {"MaxMut": 2 if th else 1, "TruncEvery": 40}, ["Inv"], "TestTyped", view=True)
 
     # (d) adversarial headers + allocation guard
@@ -218,6 +227,12 @@ def run(c):
                "Pays": tset([0, 1, 3] + ([56] if th else [])),
                "Names": sset(["u64", "big", "bool", "bytes", "string", "arr20", "raw", "iface", "Inner", "Rows", "TailS", "NilS", "tx"])},
               {}, ["Inv"], "TestHuge")
+
+    # (d') list headers declaring large payloads x slices of multi-byte elements x with / without input limit: allocation bound
+    run_model(c, "lists", "MC_RLPLists",
+              {"LimSizes": tset([4096, 61440] + ([16384] if th else [])), "UnlClaims": tset([65536, 1048576] + ([4096, 262144] if th else [])),
+               "Names": sset(SLICES + ["Rows", "iface"])},
+              {}, ["Inv"], "TestLists")
 
     # (f) the Stream API
     good = ["S(<<>>)", "S(<<5>>)", "S(<<0>>)", "S(<<128>>)", "S(<<1, 2>>)", "S(<<0, 1>>)", "L(<<>>)", "L(<<S(<<1>>)>>)",
